@@ -26,7 +26,10 @@ class OsuSample(Timed):
         s_comma = s.split(",")
         try:
             d = dict(
-                offset=float(s_comma[1]), sample_file=s_comma[3], volume=int(s_comma[4])
+                offset=float(s_comma[1]),
+                sample_file=s_comma[3],
+                # The volume is optional in the format and defaults to 100
+                volume=int(s_comma[4]) if len(s_comma) > 4 else 100,
             )
             return d if as_dict else OsuSample(**d)
         except IndexError as e:
